@@ -26,6 +26,7 @@ EXPLANATION = (
     "R01.6 only Table/Path objects reach the public read/write/role sets; R01.7 the two passes over set-operation branches agree on "
     "the branch types they visit; R01.8 every CTE name is registered before any CTE body is extracted. Does not decide: that the tables "
     "found are the right ones once a path exists (alias extraction, target detection by keyword scan per dialect)."
+    ' R01.10-R01.12 are shared clauses: parts of a dotted name are normalised one by one (= R07.3), CTE candidates are decided on the text (= R08.3), no cache or memo shared between analyzers is keyed by the text alone (= R12.2).'
 )
 RULE_TEXT = (
     "R01.1: per extractor and per listed statement type; R01.2: per distinct segment-type literal; R01.5: per (context clause, parent type, "
@@ -401,3 +402,7 @@ def rules(ctx: Ctx) -> None:
 
     _imp01(ctx, "C07", {"R07.3": "R01.10"})
     _imp01(ctx, "C08", {"R08.3": "R01.11"})
+
+    # ---- R01.12 (= R12.2, shared caches): what is reported for a statement is a function of the statement, the dialect and the configuration -
+    # a parse cache or memo shared by all analyzers and keyed by the text alone answers with another dialect's tree
+    _imp01(ctx, "C12", {"R12.2": "R01.12"}, key_filter=lambda o: o.key.startswith(("class-level-mutable", "analyzer-class-state", "memoised")))
